@@ -315,7 +315,7 @@ pub fn gen_scenario(run_seed: u64, variant: &str, tier: Tier) -> E2Scenario {
         for _ in 0..n {
             let p = (*rf.pick(&paths)).clone();
             let len = tree[&p].len().max(1);
-            let kind = *rf.pick(&["truncate", "truncate", "truncate", "bitflip", "bitflip", "splice", "empty", "badutf8", "vanish", "unreadable"]);
+            let kind = *rf.pick(&["truncate", "truncate", "truncate", "bitflip", "bitflip", "splice", "empty", "badutf8", "unispace", "unispace", "vanish", "unreadable"]);
             corruptions.push(Corruption { path: p, kind: kind.into(), a: rf.below(len), b: rf.below(8) });
         }
         // torn config writes that end shortly after a key: the value is a prefix of what it was
@@ -1634,6 +1634,23 @@ pub fn corrupt(tree: &mut Tree, c: &Corruption, all: &Tree) -> bool {
             let mut b = orig[..k].to_vec();
             b.extend_from_slice(&[0xff, 0xfe, 0xc3]);
             tree.insert(c.path.clone(), b);
+        }
+        "unispace" => {
+            // what an IME or a copy from a web page does: the indentation of one line becomes
+            // ideographic / no-break / em spaces (not GraphQL white space)
+            let Ok(text) = String::from_utf8(orig.clone()) else { return false };
+            let lines: Vec<&str> = text.split('\n').collect();
+            let indented: Vec<usize> = lines.iter().enumerate().filter(|(_, l)| l.starts_with([' ', '\t'])).map(|(i, _)| i).collect();
+            if indented.is_empty() {
+                return false;
+            }
+            let li = indented[c.a % indented.len()];
+            let sp = ['\u{3000}', '\u{a0}', '\u{2003}'][c.b % 3];
+            let n = lines[li].chars().take_while(|ch| *ch == ' ' || *ch == '\t').count();
+            let new_line: String = std::iter::repeat(sp).take(n).chain(lines[li].chars().skip(n)).collect();
+            let mut out: Vec<String> = lines.iter().map(|l| l.to_string()).collect();
+            out[li] = new_line;
+            tree.insert(c.path.clone(), out.join("\n").into_bytes());
         }
         "vanish" => {
             tree.remove(&c.path);
